@@ -675,11 +675,15 @@ class ArgumentParser(ParserDeprecations, ActionsContainer, ArgumentLinking, argp
         )
 
         try:
-            with parser_context(load_value_mode=self.parser_mode):
-                cfg = self._load_config_parser_mode(cfg_str, cfg_path, ext_vars, previous_config.get())
+            cfg_base = self._parse_defaults_and_environ(defaults, env) if defaults or env else None
+            prev_cfg = previous_config.get()
+            if prev_cfg is None:
+                prev_cfg = cfg_base  # like parse_object: values are adapted knowing the ones they are merged into
 
-            if defaults or env:
-                cfg_base = self._parse_defaults_and_environ(defaults, env)
+            with parser_context(load_value_mode=self.parser_mode):
+                cfg = self._load_config_parser_mode(cfg_str, cfg_path, ext_vars, prev_cfg)
+
+            if cfg_base is not None:
                 cfg = self.merge_config(cfg, cfg_base)
 
             parsed_cfg = self._parse_common(
